@@ -105,6 +105,9 @@ def procOrder (A : Abs) (g : Graph Name) : Option (List Name) :=
 /-- `Item.__eq__`: names compared lower-cased -/
 def itemEq (a b : Name) : Bool := lower a = lower b
 
+/-- `Item.__hash__`: `hash(self.name)` (`folds = false`, the current code) or `hash(self.name.lower())` -/
+def itemHash (folds : Bool) (h : Name → Nat) (a : Name) : Nat := if folds then h (lower a) else h a
+
 /-- Python `x in s` for a set/dict `s` (as a list of stored keys): some stored key with the same hash that compares equal.
 `Item.__hash__` is `hash(self.name)`: the hash `h` is applied to the name as stored. -/
 def pyMem (h : Name → Nat) (s : List Name) (x : Name) : Bool := s.any (fun y => h y = h x && itemEq y x)
